@@ -4,7 +4,7 @@
 
    Section variables:
      P            the per-file parser state (zone_file::Parser<File>: reader + context + error flag)
-     pnext        <zone_file::Parser as Iterator>::next: None / a syntax error / a record /
+     pnext        <zone_file::Parser as Iterator>::next: None / an error of its own / a record /
                   an $INCLUDE line, and the parser afterwards
      pctx, pwith  read / replace the parser's parse context (the reader is untouched)
      pnew         Parser::with_context(File, context) on the content of a freshly opened file
@@ -27,7 +27,7 @@ Section Inc.
 
   Inductive pres :=
   | PNone (s' : P)                                         (* next() = None *)
-  | PErr (e : SErr)                                        (* Some(Err(Syntax(..))) *)
+  | PErr (e : SErr)                                        (* Some(Err(..)): the per-file parser's own error (Syntax / Io) *)
   | PRec (n : Num) (r : Rec) (s' : P)                      (* Some(Ok(Line{number, Record})) *)
   | PInc (n : Num) (p : path) (o : option Origin) (s' : P) (* Some(Ok(Line{number, Include})) *)
   | PAbort (a : abort).
@@ -40,7 +40,7 @@ Section Inc.
   Variable max_depth : nat.
 
   Inductive ierr :=
-  | ISyntax (e : SErr)
+  | ISyntax (e : SErr)                  (* ErrorKind::Syntax / GeneralIo: the per-file parser's error *)
   | ITooDeep (line : Num) (chain : list (path * Num))
   | IOpen (line : Num) (p : path).
 
@@ -123,39 +123,66 @@ Definition to_fctx (c : ZfParser.ctx) : fctx :=
 Definition of_fctx (c : fctx) : ZfParser.ctx :=
   mkCtx (ZfFs.c_origin _ _ _ _ c) (c_owner _ _ _ _ c) (c_ttl _ _ _ _ c) (c_class _ _ _ _ c) (c_dttl _ _ _ _ c).
 
-Definition full_pres := pres name rr (pos * zkind) N parser.
+(* what File::open can open: a regular file with its content, or a directory (open succeeds, the
+   first read fails: io::Error) *)
+Inductive fobj := FFile (content : bytes) | FDir.
+
+(* zone_file::Parser<File>: on a readable file the parser model of C24; on an unreadable one only
+   its context matters (the first next() reports the I/O error) *)
+Inductive fparser := FP (p : parser) | FUnreadable (c : ZfParser.ctx).
+
+(* zone_file::error::Error: Syntax(details) | Io *)
+Inductive ferr := ESyn (e : pos * zkind) | EIo.
+
+Definition full_pres := pres name rr ferr N fparser.
 
 (* <zone_file::Parser as Iterator>::next as the include machine sees it *)
-Definition full_pnext (p : parser) : full_pres :=
-  match parser_next p with
-  | Ok (None, p') => PNone _ _ _ _ _ p'
-  | Ok (Some (inr e), _) => PErr _ _ _ _ _ e
-  | Ok (Some (inl l), p') =>
-      match l_content l with
-      | CRecord r => PRec _ _ _ _ _ (l_number l) r p'
-      | CInclude ip o => PInc _ _ _ _ _ (l_number l) ip o p'
-      end
-  | Err _ => PAbort _ _ _ _ _ AParserFuel
-  | Panic => PAbort _ _ _ _ _ APanic
+Definition full_pnext (s : fparser) : full_pres :=
+  match s with
+  | FUnreadable _ => PErr _ _ _ _ _ EIo
+  | FP p =>
+    match parser_next p with
+    | Ok (None, p') => PNone _ _ _ _ _ (FP p')
+    | Ok (Some (inr e), _) => PErr _ _ _ _ _ (ESyn e)
+    | Ok (Some (inl l), p') =>
+        match l_content l with
+        | CRecord r => PRec _ _ _ _ _ (l_number l) r (FP p')
+        | CInclude ip o => PInc _ _ _ _ _ (l_number l) ip o (FP p')
+        end
+    | Err _ => PAbort _ _ _ _ _ AParserFuel
+    | Panic => PAbort _ _ _ _ _ APanic
+    end
   end.
 
-Definition full_pctx (p : parser) : fctx := to_fctx (ps_ctx p).
-Definition full_pwith (p : parser) (c : fctx) : parser := mkParser (ps_error p) (ps_rd p) (of_fctx c).
+Definition full_pctx (s : fparser) : fctx :=
+  match s with FP p => to_fctx (ps_ctx p) | FUnreadable c => to_fctx c end.
+Definition full_pwith (s : fparser) (c : fctx) : fparser :=
+  match s with
+  | FP p => FP (mkParser (ps_error p) (ps_rd p) (of_fctx c))
+  | FUnreadable _ => FUnreadable (of_fctx c)
+  end.
 (* Parser::with_context(stream, context): error = false, Reader::new(stream) *)
-Definition full_pnew (content : bytes) (c : fctx) : parser := mkParser false (rd_new content) (of_fctx c).
+Definition full_pnew (o : fobj) (c : fctx) : fparser :=
+  match o with
+  | FFile content => FP (mkParser false (rd_new content) (of_fctx c))
+  | FDir => FUnreadable (of_fctx c)
+  end.
 
 Definition full_item := item rr N.
-Definition full_final := final (pos * zkind) N.
+Definition full_final := final ferr N.
 
-Definition full_run (fs : path -> option bytes) (max_depth fuel : nat) (st : list (entry N parser))
+Definition full_run (fs : path -> option fobj) (max_depth fuel : nat) (st : list (entry N fparser))
   : list full_item * full_final :=
-  run name name N N rr (pos * zkind) N parser bytes full_pnext full_pctx full_pwith full_pnew fs max_depth fuel st.
+  run name name N N rr ferr N fparser fobj full_pnext full_pctx full_pwith full_pnew fs max_depth fuel st.
+
+(* Parser::new(file) = with_context(file, Context::default()) *)
+Definition full_root (o : fobj) : fparser := full_pnew o (to_fctx ctx0).
 
 (* fs::Parser::open(path, max_depth) then collecting the iterator; None = open failed (io::Error
-   before any parsing).  Parser::new = with_context(Context::default()). *)
-Definition full_open_and_run (fs : path -> option bytes) (max_depth fuel : nat) (p : path)
+   before any parsing). *)
+Definition full_open_and_run (fs : path -> option fobj) (max_depth fuel : nat) (p : path)
   : option (list full_item * full_final) :=
   match fs p with
   | None => None
-  | Some content => Some (full_run fs max_depth fuel [(p, 0%N, parser_new content)])
+  | Some o => Some (full_run fs max_depth fuel [(p, 0%N, full_root o)])
   end.
